@@ -277,9 +277,13 @@ func init() {
 				k := funcKey(topFunc(fn))
 				switch k {
 				case "(*storage/buffer.BufferPoolManager).FlushPage":
-					// must be accompanied by WritePage on every path to a `true` return
-					wit := (&PathQ{Fn: fn, Avoid: InstrCallsObj(a.DMWritePage), Target: func(in ssa.Instruction) bool { return mayReturnBool(in, 0, true) }}).FromAfter([]ssa.Instruction{c.(ssa.Instruction)})
-					r.Check(wit == nil, "FlushPage:clears-dirty-only-with-write", "FlushPage reports success only after the page was written", "path: "+w.DescribeWitness(fn, wit))
+					// the flag is cleared BEFORE the bytes are handed to WritePage: a writer that dirties the page while
+					// the write is in flight must not have its mark wiped by a late clear
+					site := c.(ssa.Instruction)
+					wit := (&PathQ{Fn: fn, Avoid: func(in ssa.Instruction) bool { return in == site }, Target: InstrCallsObj(a.DMWritePage)}).FromEntry()
+					r.Check(wit == nil, "FlushPage:dirty-cleared-before-write", "FlushPage clears the dirty flag before it starts writing the page", "path reaching WritePage with the dirty flag not yet cleared: "+w.DescribeWitness(fn, wit))
+					wit = (&PathQ{Fn: fn, Target: func(in ssa.Instruction) bool { return in == site }}).FromAfter(sitesCalling(fn, a.DMWritePage))
+					r.Check(wit == nil, "FlushPage:no-clear-after-write", "the dirty flag is not cleared after the write started (it may have been set again by a concurrent writer)", "path: "+w.DescribeWitness(fn, wit))
 				case "(*storage/buffer.BufferPoolManager).UnpinPage":
 					// covered above
 				default:
@@ -287,5 +291,90 @@ func init() {
 				}
 			})
 		}
+	})
+}
+
+func init() {
+	reg("C13-R7", "file offsets of pages are computed in 64-bit arithmetic: in package disk, every multiplication / addition / shift on the way from a page-id parameter to the offset given to Seek / ReadAt / WriteAt has a 64-bit result type (a 32-bit product of page id and page size wraps for files of 2 GiB and more, mapping two page ids to one disk slot)", func(w *World, r *Report) {
+		n := 0
+		for _, fn := range w.RepoFuncs {
+			if fn.Pkg == nil || fn.Pkg.Pkg.Path() != libMod+"/storage/disk" || w.IsTestFunc(fn) {
+				continue
+			}
+			// parameters of page-id type
+			var idParams []*ssa.Parameter
+			for _, p := range fn.Params {
+				if strings.HasSuffix(p.Type().String(), "types.PageID") {
+					idParams = append(idParams, p)
+				}
+			}
+			if len(idParams) == 0 {
+				continue
+			}
+			EachCall(fn, func(c ssa.CallInstruction) {
+				o := CalleeObj(c)
+				if o == nil || o.Pkg() == nil {
+					return
+				}
+				var off ssa.Value
+				args := c.Common().Args
+				switch o.Name() {
+				case "Seek":
+					if len(args) >= 2 {
+						off = args[len(args)-2]
+					}
+				case "ReadAt", "WriteAt":
+					off = args[len(args)-1]
+				default:
+					return
+				}
+				if off == nil {
+					return
+				}
+				sl := BackSlice(off)
+				dependsOnID := false
+				for v := range sl.Vals {
+					for _, p := range idParams {
+						if v == ssa.Value(p) {
+							dependsOnID = true
+						}
+					}
+				}
+				if !dependsOnID {
+					return
+				}
+				n++
+				var bad []string
+				for v := range sl.Vals {
+					bo, ok := v.(*ssa.BinOp)
+					if !ok {
+						continue
+					}
+					switch bo.Op {
+					case token.MUL, token.ADD, token.SHL:
+					default:
+						continue
+					}
+					// only operations that (transitively) involve the page id
+					inv := false
+					for _, p := range idParams {
+						pp := p
+						if DependsOn(bo, func(x ssa.Value) bool { return x == ssa.Value(pp) }) {
+							inv = true
+						}
+					}
+					if !inv {
+						continue
+					}
+					b, ok := bo.Type().Underlying().(*types.Basic)
+					if !ok || !(b.Kind() == types.Int64 || b.Kind() == types.Uint64) {
+						bad = append(bad, bo.Op.String()+" at "+w.InstrPos(bo)+" has type "+bo.Type().String())
+					}
+				}
+				k := funcKey(fn) + ":" + o.Name() + ordinalIn(fn, c.(ssa.Instruction), o)
+				r.Check(len(bad) == 0, "offset-64bit:"+k, "the page's file offset is computed at 64-bit width", strings.Join(uniq(bad), "; ")+": the product wraps for large page ids")
+			})
+		}
+		r.Floor("offset computations from a page id in package disk", n, 3)
 	})
 }
